@@ -98,6 +98,6 @@ CLAIMED = {
  "C19": dict(
   technique="explicit-state search over all operation sequences up to depth d on shared values (state = deep reflect/unsafe snapshot of shared values and all package-level variables; results compared with fresh-process baselines) plus stateless exploration of all schedules with <= 1 preemption of 2-3 real goroutines under a cooperative scheduler whose scheduling points are overlay-injected before every statement; complemented by a separate free-running -race pass of the same bodies",
   text="Histories: every sequence of menu operations up to the depth bound is executed on fresh shared values and after each operation the shared values' memory must be unchanged and the result equal to the history-free result. Schedules: for every scenario every interleaving within the preemption bound is executed on the real code and each thread's result must equal the sequential one (no deadlock). Races below statement granularity are left to the free-running race detector pass, which must be silent.",
-  note="Depth 2/3, preemption bound 1, statement-granularity scheduling points in the repository's own code only; blocking on real locks is reported as unexplored (exhaustive:false), never as a violation; regexp internals trusted. Instrumentation by go build -overlay from the current tree, self-tested with the repository's tests.",
+  note="History depth 2 (quick) / 4 (thorough); preemption bound 1 (thorough: 2 on a subset); statement-granularity scheduling points in the repository's own code only; blocking on real locks is reported as unexplored (exhaustive:false), never as a violation; regexp internals trusted. Instrumentation by go build -overlay from the current tree, self-tested with the repository's tests.",
   ref="DESIGN.md 3.5, 4 (C19)"),
 }
